@@ -203,7 +203,8 @@ theorem Inv.transfer' {P : Params} {h h' : Heap} {o : Sketch} (inv : Inv P h o)
 def MHLSpec (P : Params) (n0 : Nat) (s o : Sketch) (b : Nat) (byMove : Bool) (hA : Heap) : Prop :=
   ∀ (sa : Sketch) (ca : List Bool) (ba : Nat) (h1 : Heap) (finalN : Nat),
     SSide (foot (owned s ++ owned o) n0) hA h1 s sa b ba → Inv P h1 o → (byMove = false → Usable P h1 o) →
-    W sa + W o = finalN + pop o.levels 0 → PW sa → finalN < 2 ^ 64 →
+    (∀ ob, o.items = some ob → LiveOn h1 ob (o.levels.getD 1 0) o.itemsSize) →
+    W sa = s.n + pop o.levels 0 → finalN = s.n + o.n → PW sa → finalN < 2 ^ 64 →
     SafeF (foot (owned s ++ owned o) n0) h1 (mergeHigherLevels sa o false finalN ca h1)
       (fun r h' => (∃ ba', SSide (foot (owned s ++ owned o) n0) hA h' s r.1 b ba') ∧ Inv P h' o ∧
         (byMove = false → Usable P h' o) ∧ (r.1.numLevels = 1 ∨ 2 ^ (r.1.numLevels - 1) ≤ finalN))
@@ -279,8 +280,10 @@ theorem mergeTail_spec (P : Params) (hP : P.OK) (n0 : Nat) (ids0 : List Nat) (s 
       exact hpw1
     by_cases hlv : o.numLevels ≥ 2
     · rw [if_pos hlv]
+      have e01 : o.levels.getD 0 0 + (o.levels.getD 1 0 - o.levels.getD 0 0) = o.levels.getD 1 0 := by omega
       apply SafeF.bind' (hml hlv sa ca ba h1 (s.n + o.n) ss1 os1.inv os1.usable
-        (by simp only [pop, Nat.zero_add]; omega) hpw1 (h64 hlv))
+        (fun ob' hob' => by rw [hob] at hob'; cases hob'; rw [← e01]; exact os1.live)
+        (by simp only [pop, Nat.zero_add]; omega) rfl hpw1 (h64 hlv))
       intro r h2 ⟨⟨ba', ss2⟩, io2, uo2, hpw2⟩ _
       obtain ⟨s2, c2⟩ := r
       exact mergeFinish_spec P n0 ids0 s o b h hA h2 s2 ba' c2 byMove (s.n + o.n) ctx hAid hAnx ss2 io2 uo2 hfn
